@@ -2,9 +2,9 @@ SPECIFICATION Spec
 CONSTANTS Thr = {t1,t2,t3}
  Calls = 2
  ProcScope = "thread"
- DtorLocked = TRUE
- UsesPlanner = TRUE
- TableScope = "proc"
+ DtorLocked = FALSE
+ UsesPlanner = FALSE
+ TableScope = "firstowner"
  TempScope = "call"
  DtorFrees = "all"
 INVARIANT Deterministic
